@@ -72,7 +72,7 @@ def check_human(ctx, backend, kw, pre=0, then=None):
                 ctx.check(ok, "human_repr() escapes a printable character that would not change the parse in its position", observed=dict(info, component=comp, escape=t[2]),
                           expected="only delimiters of the position, '%' and non-printables are escaped", entry="readable")
         for ch in decoded[comp]:
-            if comp in ("user", "password") and any(d in unicodedata.normalize("NFKC", ch) for d in "/?#@:"):
+            if comp in ("user", "password") and any(d in unicodedata.normalize("NFKC", ch) for d in "/?#@:[]"):
                 continue  # would change the parse in this position (the parser rejects such a netloc): may be escaped
             if ord(ch) > 127 and ch.isprintable():
                 ctx.check(ch in text, "printable non-ASCII text is not shown literally", observed=dict(info, component=comp, char=ch), expected="literal", entry="readable")
